@@ -100,6 +100,8 @@ inductive Site
   | grpcKnocks
   /-- `GRPCBroker.Run`: `go m.timeoutWait` -/
   | grpcTimeoutWait
+  /-- `GRPCBroker.Run`: `go m.knockExpiry` (multiplexed: one per incoming knock, ends after 4 s or with the broker) -/
+  | grpcKnockExpiry
   /-- `newGRPCClient`: `go broker.Run()` -/
   | grpcCliBrokerRun
   /-- `newGRPCClient`: `go brokerGRPCClient.StartStream()` -/
@@ -146,14 +148,14 @@ def Site.code : Site → Nat
   | .grpcSrvBrokerRun => 14 | .stdioCopyOut => 15 | .stdioCopyErr => 16 | .muxAcceptSession => 17
   | .muxTimeoutWait => 18 | .rpcCliBrokerRun => 19 | .rpcCliCopyOut => 20 | .rpcCliCopyErr => 21
   | .rpcSrvServeConn => 22 | .rpcSrvCopyOut => 23 | .rpcSrvCopyErr => 24 | .rpcSrvBrokerRun => 25
-  | .dispenseAccept => 26 | .serveSignals => 27 | .serveServe => 28
+  | .dispenseAccept => 26 | .serveSignals => 27 | .serveServe => 28 | .grpcKnockExpiry => 29
 
 def allSites : List Site :=
   [.cleanupKill, .startLogStderr, .startWait, .startScan, .startDrain, .reattachWait, .brokerSrvSend,
    .brokerCliSend, .grpcKnocks, .grpcTimeoutWait, .grpcCliBrokerRun, .grpcCliStartStream, .grpcCliStdio,
    .grpcSrvBrokerRun, .stdioCopyOut, .stdioCopyErr, .muxAcceptSession, .muxTimeoutWait, .rpcCliBrokerRun,
    .rpcCliCopyOut, .rpcCliCopyErr, .rpcSrvServeConn, .rpcSrvCopyOut, .rpcSrvCopyErr, .rpcSrvBrokerRun,
-   .dispenseAccept, .serveSignals, .serveServe]
+   .dispenseAccept, .serveSignals, .serveServe, .grpcKnockExpiry]
 
 /-- The sorted list of site numbers the model accounts for: what the extractor must find. -/
 def knownSites : List Nat := allSites.map Site.code
@@ -162,7 +164,7 @@ def knownSites : List Nat := allSites.map Site.code
 `listenForKnocks` run on whichever side receives / accepts.) -/
 def Site.hostRole : Site → Bool
   | .cleanupKill | .startLogStderr | .startWait | .startScan | .startDrain | .reattachWait
-  | .brokerCliSend | .grpcKnocks | .grpcTimeoutWait | .grpcCliBrokerRun | .grpcCliStartStream
+  | .brokerCliSend | .grpcKnocks | .grpcTimeoutWait | .grpcKnockExpiry | .grpcCliBrokerRun | .grpcCliStartStream
   | .grpcCliStdio | .muxTimeoutWait | .rpcCliBrokerRun | .rpcCliCopyOut | .rpcCliCopyErr => true
   | _ => false
 
@@ -418,6 +420,7 @@ def gorReleased (P : Params) (L : Lib) : Gor → Bool
   | .site .rpcCliCopyErr => peerGone
   | .site .grpcKnocks => servedListenerClosed P L (hostBrokerDone P)   -- only `p.doneCh`, closed by the listener's close hook
   | .site .grpcTimeoutWait => timerFired
+  | .site .grpcKnockExpiry => timerFired             -- 4 s timer (or `p.doneCh` / the broker's `doneCh`)
   | .site .muxTimeoutWait => timerFired
   | .acceptAndServe => hostBrokerDone P && P.acceptAndServeEndsOnBrokerDone   -- only the run group's `<-b.doneCh`
   | .site _ => peerGone                              -- plugin-role sites end with their process
@@ -450,7 +453,9 @@ def opEntries (P : Params) (L : Lib) (c : Cfg) : Op → List Entry
     | .grpc =>
       if c.mux then
         -- host AcceptAndServe: knock listener + the parked caller; host dial: the knock ack arrives at Run
-        [gorEntry P L (.site .grpcKnocks), gorEntry P L .acceptAndServe, gorEntry P L (.site .grpcTimeoutWait)]
+        -- (the plugin's knock for the host's listener arrives at the host's Run as well: one knockExpiry)
+        [gorEntry P L (.site .grpcKnocks), gorEntry P L .acceptAndServe, gorEntry P L (.site .grpcTimeoutWait),
+         gorEntry P L (.site .grpcKnockExpiry)]
       else
         -- a socket on each side; the plugin's ConnInfo arrives at the host's Run
         [fileEntry P L c .hostBrokeredSocket, gorEntry P L .acceptAndServe,
